@@ -6,7 +6,7 @@ import time
 
 VERIF = os.path.dirname(os.path.dirname(os.path.abspath(__file__)))
 OUT = os.path.join(VERIF, "out")
-EVID = os.path.join(VERIF, "evidence")
+EVID = os.environ.get("VERIF_EVIDENCE_DIR") or os.path.join(VERIF, "evidence")   # tools/reseed_all.sh points mutant runs elsewhere
 KNOWN = os.path.join(VERIF, "known_findings.json")
 
 
